@@ -79,16 +79,70 @@ CachedW(d) == CASE d.k = "nil" -> 0
                 [] d.k = "cell" -> CachedW(d.inner)
                 [] OTHER -> IF HasCap(d, "Width") THEN d.w ELSE LinesMaxW(LinesOf(d))
 
-MkCell(d) == [item |-> d, txt |-> TextOf(d), lines |-> LinesOf(d),
+\* snap: the item as it was when the cell last read it
+MkCell(d) == [item |-> d, snap |-> d, txt |-> TextOf(d), lines |-> LinesOf(d),
               h |-> CachedH(d), w |-> CachedW(d), props |-> EmptyMap]
 
 \* re-read the (possibly mutated) item, keep everything else
-UpdateCell(c) == [c EXCEPT !.txt = TextOf(c.item), !.lines = LinesOf(c.item),
+UpdateCell(c) == [c EXCEPT !.snap = c.item, !.txt = TextOf(c.item), !.lines = LinesOf(c.item),
                            !.h = CachedH(c.item), !.w = CachedW(c.item)]
 
 CellWidth(c)  == IF c.w < 0 THEN 0 ELSE c.w
 CellHeight(c) == IF c.h < 1 THEN (IF CellWidth(c) > 0 THEN 1 ELSE 0) ELSE c.h
 CellEmpty(c)  == c.txt = ""
+
+-----------------------------------------------------------------------------
+(* Line and width metrics (C18) *)
+(*                                                                         *)
+(* A string is given as a sequence of tokens: NL or a chunk free of line    *)
+(* feeds.  Segs is the unique split at the line feeds; the library's Lines  *)
+(* drops one trailing empty segment.                                       *)
+
+NL == "\n"
+
+RECURSIVE SegsFrom(_, _, _)
+SegsFrom(parts, cur, acc) ==
+  IF parts = <<>> THEN Append(acc, cur)
+  ELSE IF Head(parts) = NL THEN SegsFrom(Tail(parts), "", Append(acc, cur))
+  ELSE SegsFrom(Tail(parts), cur \o Head(parts), acc)
+Segs(parts) == SegsFrom(parts, "", <<>>)
+
+RECURSIVE ConcatAll(_)
+ConcatAll(parts) == IF parts = <<>> THEN "" ELSE Head(parts) \o ConcatAll(Tail(parts))
+
+Front(s) == SubSeq(s, 1, Len(s) - 1)
+LibLines(parts) == LET g == Segs(parts) IN IF g[Len(g)] = "" THEN Front(g) ELSE g
+
+\* the cell's own, independently coded height rule (cell.go): 0 for the empty
+\* text, else 1 + number of line feeds, minus one if the text ends in a line feed
+CountNL(parts) == Cardinality({i \in DOMAIN parts : parts[i] = NL})
+EndsNL(parts) == LET nz == {i \in DOMAIN parts : parts[i] # ""} IN
+                   nz # {} /\ parts[SetMax(nz)] = NL
+HeightRule(parts) == IF ConcatAll(parts) = "" THEN 0
+                     ELSE 1 + CountNL(parts) - (IF EndsNL(parts) THEN 1 ELSE 0)
+
+\* model-level claim: the two computations agree (layout pass = emit pass)
+Inv_C18_Model(parts) == HeightRule(parts) = Len(LibLines(parts))
+
+\* relations between the logged measurements (m) of the string made of parts
+AgreeMetrics(parts, m) ==
+  LET g == Segs(parts)
+      ls == SeqMap(LAMBDA x : x[1], m.lines)
+      mx(k) == SetMax({m.lines[i][k] : i \in DOMAIN m.lines})
+  IN /\ m.s = ConcatAll(parts)
+     \* nothing lost but the line breaks and at most one trailing line feed
+     /\ (ls = g \/ (g[Len(g)] = "" /\ ls = Front(g)))
+     \* longest-line measures are the maxima of the per-line measures
+     /\ m.llb = mx(2) /\ m.llr = mx(3) /\ m.llc = mx(4)
+     \* runes <= bytes, cells <= 2 * runes, per line and per chunk
+     /\ \A i \in DOMAIN m.lines : m.lines[i][3] <= m.lines[i][2] /\ m.lines[i][4] <= 2 * m.lines[i][3]
+                                    /\ m.lines[i][2] >= 0 /\ m.lines[i][4] >= 0
+     /\ \A i \in DOMAIN m.chunks : m.chunks[i][3] <= m.chunks[i][2] /\ m.chunks[i][4] <= 2 * m.chunks[i][3]
+     \* a cell without size overrides: height = number of lines, width = widest line
+     /\ m.cellText = m.s
+     /\ m.cellLines = ls
+     /\ m.cellH = Len(m.cellLines)
+     /\ m.cellW = m.llc
 
 -----------------------------------------------------------------------------
 (* State *)
@@ -485,8 +539,23 @@ Inv_Detached(st) ==
     st.row[r].tbl = 0 => /\ st.row[r].pos = 0
                          /\ \A t \in DOMAIN st.tbl : r \notin TableRowIds(st, t)
 
-\* C01: a cell's cached text is the text form of its item as of the last (re)read is
-\* an action property; the state part: Empty <=> text empty holds by construction
+\* C01, stated as precedence implications over the item the cell last read
+RECURSIVE TextFormOK(_, _)
+TextFormOK(d, txt) ==
+  CASE d.k = "nil"  -> txt = ""
+    [] d.k = "cell" -> TextFormOK(d.inner, txt)
+    [] d.k \in {"str", "rune"} -> txt = d.s
+    [] OTHER -> /\ HasCap(d, "String") => txt = d.strv
+                /\ (~HasCap(d, "String") /\ HasCap(d, "GoString")) => txt = d.gov
+                /\ (~HasCap(d, "String") /\ ~HasCap(d, "GoString") /\ HasCap(d, "Error")) => txt = d.errv
+                /\ (~HasCap(d, "String") /\ ~HasCap(d, "GoString") /\ ~HasCap(d, "Error")) => txt = d.fmtv
+
+AllCells(st) ==
+  UNION {Range(st.row[r].cells) : r \in DOMAIN st.row} \cup UNION {Range(st.tbl[t].hdr) : t \in DOMAIN st.tbl}
+  \cup Range(st.cv)
+
+Inv_C01(st) == \A c \in AllCells(st) : TextFormOK(c.snap, c.txt) /\ (CellEmpty(c) <=> c.txt = "")
+
 Inv_C11_NoPendingOnAttached(st) ==
   \A r \in DOMAIN st.row : st.row[r].tbl # 0 => st.row[r].pend = <<>>
 
